@@ -7,7 +7,7 @@ VARIABLE cs
 AlphaInit == cs \in Cases
 AlphaNext == UNCHANGED cs
 \* the specification itself never prescribes anything but "drop that peer" or "keep it"
-SpecOnlyDrops == Expect(cs) \in {"stop", "keep", "any"}
+SpecOnlyDrops == Expect(cs) \in {"stop", "keep", "any"} /\ Consequence(cs) = "none"
 WellFormedCase == /\ cs.reactor \in Reactors /\ cs.kind \in Kinds(cs.reactor)
                   /\ cs.fc \in FC(cs.reactor, cs.kind) /\ cs.ps \in PS(cs.reactor)
 =============================================================================
